@@ -487,7 +487,7 @@ def envND (tbl : List (Nat × ND)) (tid : Nat) : ND :=
 
 /-- a value as the harness prints it: every handle comes with its hash -/
 inductive HV where
-  | plain (v : Val) | handle (tid hash : Nat) (dup : Bool) (p : HV) | list (vs : List HV) | tagged (i : Nat) (p : HV)
+  | plain (v : Val) | handle (tid hash : Nat) (dup : Option Nat) (p : HV) | list (vs : List HV) | tagged (i : Nat) (p : HV)
   deriving Inhabited
 
 partial def HV.toNVal : HV → NVal
@@ -508,7 +508,11 @@ mutual
     | .plain pd => (parseV pd cs).map (fun (v, r) => (.plain v, r))
     | .handle tid => do
       -- `h` = a handle obtained by interning, `d` = a private copy (`Interned::new_duplicating`) the interner does not know
-      let (dup, r) ← (match cs with | 'h' :: r => some (false, r) | 'd' :: r => some (true, r) | _ => none)
+      -- (`d<id>_<hash>`: equal ids = one private allocation, e.g. held by a value and by a private copy of that value)
+      let (dup, r) ← (match cs with
+        | 'h' :: r => some (none, r)
+        | 'd' :: r => (match parseNat r with | some (id, '_' :: r) => some (some id, r) | _ => none)
+        | _ => none)
       let (h, r) ← parseNat r
       let (_, r) ← expect '{' r
       let (p, r) ← parseHV env (env tid) r
@@ -553,26 +557,28 @@ end
 
 partial def HV.hasDup : HV → Bool
   | .plain _ => false
-  | .handle _ _ dup p => dup || p.hasDup
+  | .handle _ _ dup p => dup.isSome || p.hasDup
   | .list vs => vs.any HV.hasDup
   | .tagged _ p => p.hasDup
 
 /-- the decoder-side interner in which a value is alive (an INPUT state, not a decoder step): its parts were interned
     bottom-up — the allocation already alive under the key wins —, except the private copies (`d`), which get an
-    allocation number of their own (10^6 + n) that the interner does not know.  For a value without private copies this
+    allocation number of their own (10^6 + id) that the interner does not know.  For a value without private copies this
     is what decoding it once leaves behind. -/
-partial def warmWalk : HV → NInterner → Nat → DVal × NInterner × Nat
-  | .plain v, I, c => (.plain v, I, c)
-  | .handle tid h dup p, I, c =>
-    let (dp, I, c) := warmWalk p I c
-    if dup then (.handle tid (1000000 + c) dp, I, c + 1)
-    else match I.find (tid, h) with
-      | some (s, p') => (.handle tid s p', I, c)
-      | none => (.handle tid I.length dp, ((tid, h), dp) :: I, c)
-  | .list vs, I, c =>
-    let (ds, I, c) := vs.foldl (fun (acc, I, c) v => let (d, I, c) := warmWalk v I c; (acc ++ [d], I, c)) ([], I, c)
-    (.list ds, I, c)
-  | .tagged i p, I, c => let (dp, I, c) := warmWalk p I c; (.tagged i dp, I, c)
+partial def warmWalk : HV → NInterner → DVal × NInterner
+  | .plain v, I => (.plain v, I)
+  | .handle tid h dup p, I =>
+    let (dp, I) := warmWalk p I
+    match dup with
+    | some id => (.handle tid (1000000 + id) dp, I)
+    | none =>
+      match I.find (tid, h) with
+      | some (s, p') => (.handle tid s p', I)
+      | none => (.handle tid I.length dp, ((tid, h), dp) :: I)
+  | .list vs, I =>
+    let (ds, I) := vs.foldl (fun (acc, I) v => let (d, I) := warmWalk v I; (acc ++ [d], I)) ([], I)
+    (.list ds, I)
+  | .tagged i p, I => let (dp, I) := warmWalk p I; (.tagged i dp, I)
 
 partial def nbeq : NVal → NVal → Bool
   | .plain a, .plain b => a == b
@@ -642,7 +648,7 @@ def doN (mutated : Bool) (fields : List String) : String :=
           let bytes := encodeTop env hash t v
           -- warm: the decoder's interner is the encoder's, every original alive = what decoding once leaves behind
           let I0 : Option NInterner :=
-            if mode = "warm" then some (warmWalk hv [] 0).2.1 else some []
+            if mode = "warm" then some (warmWalk hv []).2 else some []
           match I0 with
           | none => "warm-failed"
           | some I0 =>
@@ -698,7 +704,7 @@ def doK (fields : List String) : String :=
         -- copies among them the interner is only `IOkW` (`interned_roundtrip_nested_weak`) and is given as an input state
         let I0 : Option NInterner :=
           if alive.any (fun (_, av) => av.hasDup) then
-            some (alive.foldl (fun (I, c) (_, av) => let (_, I, c) := warmWalk av I c; (I, c)) (([] : NInterner), 0)).1
+            some (alive.foldl (fun I (_, av) => (warmWalk av I).2) ([] : NInterner))
           else aliveInterner env hash nFuel (alive.map (fun (ad, av) => (ad.toNTy, av.toNVal))) []
         match I0 with
         | none => "alive-failed"
